@@ -296,7 +296,9 @@ func (w *World) Verify(c *Contract) (res *TargetResult) {
 		x.lastObl.Detail, x.lastObl.Clause = e.Text, e
 		x.lastObl.Group = fmt.Sprintf("ensures%d", e.N)
 	}
-	if c.SplitReturns && len(f.rets) > 1 {
+	if c.ModAll {
+		// `modifies *`: the contract makes no frame claim (callers havoc everything)
+	} else if c.SplitReturns && len(f.rets) > 1 {
 		// the frame condition is proved per return statement, each against its own heap
 		for i, r := range f.rets {
 			x.frameSuffix = fmt.Sprintf(".ret%d", i)
